@@ -99,10 +99,18 @@ def check(run):
         crules.lookup_rules(run, None, r1, ast)
         lookups_unconditional(run, r1, ast)
         crules.phase_rules(run, r1, ast)
+        # what the checked hash does with an id it does not know: report it through the handler, then abort - on every rejecting path
+        for x in ("C15-h1", "C15-h2", "C15-h3", "C15-h5"):
+            if x not in run.rules:
+                run.rule(x, "(decided by C05)", floor=0)
+        crules.hash_rules(run, "C15-h1", "C15-h2", "C15-h3", r2, "C15-h5", ast)
+        run.violations = [v for v in run.violations if not v["rule"].startswith("C15-h")]
         units = callpath.build_units(run, sorted(witness.CHECKED), ["r", "V", "X", "W", "sS", "rir"], ndebug=nd, tag="c15")
         for u in units:
             call_rules(run, r2, r3, u)
             abort_rule(run, r4, u)
+    for x in ("C15-h1", "C15-h2", "C15-h3", "C15-h5"):
+        run.rules.pop(x, None)
     run.assumptions += ["what the checked hash rejects (range + identity test against the control table) is decided by C05-checked; abort after the handler by C02-abort",
                         "policies with runtime_checks but without a type hash have no registration test at call time; the property is stated for the stock debug policy"]
     return run.finish(level="other", explanation="AST rules on the three update-time look-ups (null test, reported id, abort, control dependence) and IR path queries on every "
